@@ -1,0 +1,119 @@
+//go:build verif
+
+// Package verifhook provides hook points for the external verification harness (build tag "verif").
+//
+// At(point, args...) is called at named places of the code. Depending on the environment it
+//   - hands control to an in-process Handler (controlled scheduler inside the harness process),
+//   - appends the point to VERIF_POINT_LOG,
+//   - kills the process at the k-th point hit by a process of the given role (VERIF_CRASH=<role>:<k>),
+//   - or parks the process at a gate until the harness releases it (VERIF_GATE_DIR).
+//
+// Observe(kind, kv...) appends one line to VERIF_OBS_LOG (single O_APPEND write).
+package verifhook
+
+import (
+	"fmt"
+	"os"
+	"path/filepath"
+	"strconv"
+	"strings"
+	"sync"
+	"syscall"
+	"time"
+)
+
+// Handler, when set by an in-process harness, receives every hook point first.
+var Handler func(point string, args []string)
+
+// ObserveHandler, when set by an in-process harness, receives every observation.
+var ObserveHandler func(kind string, kv []string)
+
+var (
+	mu    sync.Mutex
+	count int
+)
+
+// Role tells daemon and command-runner processes apart.
+func Role() string {
+	for _, a := range os.Args {
+		if a == "--command-runner" {
+			return "runner"
+		}
+	}
+
+	return "daemon"
+}
+
+func appendLine(file string, line string) {
+	f, err := os.OpenFile(file, os.O_APPEND|os.O_CREATE|os.O_WRONLY, 0o600)
+	if err != nil {
+		return
+	}
+	_, _ = f.WriteString(line)
+	_ = f.Close()
+}
+
+// At is a hook point.
+func At(point string, args ...string) {
+	if h := Handler; h != nil {
+		h(point, args)
+	}
+	spec := os.Getenv("VERIF_CRASH")
+	logf := os.Getenv("VERIF_POINT_LOG")
+	gate := os.Getenv("VERIF_GATE_DIR")
+	if spec == "" && logf == "" && gate == "" {
+		return
+	}
+	mu.Lock()
+	count++
+	n := count
+	mu.Unlock()
+	r := Role()
+	if logf != "" {
+		appendLine(logf, fmt.Sprintf("%s %d %d %s %s\n", r, os.Getpid(), n, point, strings.Join(args, " ")))
+	}
+	if spec != "" {
+		p := strings.SplitN(spec, ":", 2)
+		if len(p) == 2 && p[0] == r {
+			k, _ := strconv.Atoi(p[1])
+			if k == n {
+				if logf != "" {
+					appendLine(logf, fmt.Sprintf("%s %d %d CRASH-HERE %s\n", r, os.Getpid(), n, point))
+				}
+				_ = syscall.Kill(os.Getpid(), syscall.SIGKILL)
+				select {}
+			}
+		}
+	}
+	if gate != "" {
+		// Gate protocol: if <gate>/<role>.<point>.wait exists, announce arrival by creating
+		// <gate>/<role>.<point>.arrived and wait until <gate>/<role>.<point>.go appears.
+		base := filepath.Join(gate, r+"."+point)
+		if _, err := os.Stat(base + ".wait"); err == nil {
+			appendLine(base+".arrived", fmt.Sprintf("%d\n", os.Getpid()))
+			for i := 0; i < 60000; i++ {
+				if _, err := os.Stat(base + ".go"); err == nil {
+					break
+				}
+				time.Sleep(2 * time.Millisecond)
+			}
+		}
+	}
+}
+
+// Observe reports an observation (for example every status-file rewrite).
+func Observe(kind string, kv ...string) {
+	if h := ObserveHandler; h != nil {
+		h(kind, kv)
+	}
+	logf := os.Getenv("VERIF_OBS_LOG")
+	if logf == "" {
+		return
+	}
+	appendLine(logf, fmt.Sprintf("%d %s %d %s %s\n", time.Now().UnixNano(), Role(), os.Getpid(), kind, strings.Join(kv, "\t")))
+}
+
+// ObserveStatus reports one rewrite of a status record: file, old (state, stdout size), new (state, stdout size).
+func ObserveStatus(file string, oldState int, oldSize int64, newState int, newSize int64) {
+	Observe("status", file, strconv.Itoa(oldState), strconv.FormatInt(oldSize, 10), strconv.Itoa(newState), strconv.FormatInt(newSize, 10))
+}
